@@ -342,9 +342,6 @@ func (e *drvEnv) settle() []sim.Msg {
 
 func (e *drvEnv) snapshotBufs(op *DOp) {
 	op.Bufs = []BufJ{}
-	if e.c.Magic {
-		return
-	}
 	for _, b := range driver.VerifC11Buffers(e.ctx) {
 		op.Bufs = append(op.Bufs, BufJ{Start: b[0], Size: b[1], Dirty: b[2] == 1, Freed: b[3] == 1})
 	}
